@@ -75,17 +75,18 @@ Lemma bridge_predict_nan hs : gen_predict_nan (zlen hs) = const_all None hs.
 Proof. unfold gen_predict_nan, np_full_nan, const_all. apply repeat_const. Qed.
 
 Lemma bridge_tile_index vals sp hs :
-  (if zlast hs >? sp
+  (if sp <? zlast hs
    then np_index (np_tile vals (np_ceil_div (zlast hs) sp)) (map gen_fh_indexer hs)
    else np_index vals (map gen_fh_indexer hs)) = steps_vals vals sp hs.
 Proof.
-  unfold steps_vals, np_index, np_tile, np_ceil_div. rewrite map_indexer, Z.gtb_ltb.
+  unfold steps_vals, np_index, np_tile, np_ceil_div. rewrite map_indexer.
   destruct (sp <? zlast hs); reflexivity.
 Qed.
 
 Theorem bridge_kernel s sp w hs : gen_kernel s sp w hs = kernel s sp w hs.
 Proof.
-  unfold gen_kernel, kernel, np_all_isnan. rewrite (orb_comm (all_nan w)).
+  unfold gen_kernel, kernel, np_all_isnan. rewrite ?Z.gtb_ltb, ?Z.geb_leb.
+  rewrite (orb_comm (all_nan w)).
   destruct s; cbv beta iota zeta.
   - (* last *)
     destruct ((zlen w =? 0) || all_nan w); [rewrite bridge_predict_nan; reflexivity|].
@@ -96,7 +97,7 @@ Proof.
     destruct ((zlen w =? 0) || all_nan w); [rewrite bridge_predict_nan; reflexivity|].
     destruct (sp =? 1).
     + unfold np_repeat, const_all. rewrite repeat_const. reflexivity.
-    + rewrite Z.gtb_ltb. unfold np_reshape_cols, np_hstack, np_full_nan.
+    + unfold np_reshape_cols, np_hstack, np_full_nan.
       destruct (0 <? zlen w mod sp); cbv beta iota zeta;
         match goal with |- context [?a =? ?a / sp * sp] => destruct (a =? a / sp * sp) end;
         cbv beta iota zeta; try reflexivity;
